@@ -19,10 +19,14 @@ DS = ('auto', 'match', 'none')
 LE = ('on', 'off', 'same')
 
 
-def build_options(ds='auto', le='on', **extra):
-    """BuildOptions exactly as graphtage/__main__.py derives them from --dict-strategy / -l / -ll."""
+def build_options(ds='auto', le='on', api_none=False, **extra):
+    """BuildOptions exactly as graphtage/__main__.py derives them from --dict-strategy / -l / -ll. With api_none the 'none'
+    strategy is asked for the way a library user would: BuildOptions(allow_key_edits=False), auto_match_keys left at its
+    default (the command line always clears both)."""
     kw = dict(extra)
-    if ds == 'none':
+    if ds == 'none' and api_none:
+        kw.update(allow_key_edits=False)
+    elif ds == 'none':
         kw.update(allow_key_edits=False, auto_match_keys=False)
     elif ds == 'match':
         kw.update(allow_key_edits=True, auto_match_keys=False)
